@@ -65,17 +65,20 @@ Spec == Init /\ [][Next]_vars
 InScreen == CaretInScreen(st)
 Sane == /\ st.tw >= 1 /\ st.th >= 1 /\ st.bh >= st.th /\ st.lh >= 1
         /\ \A i \in 1..Len(st.rows) : \A j \in 1..Len(st.rows[i]) : Scalar(st.rows[i][j][1])
-\* C03 on the model: one token never grows the row table by more than a screenful (+1) of rows, a row by more than a screen
-\* width (+ the token's own characters), or a macro beyond the macro space - whatever numbers the token carries
+\* C03 on the model: one token never grows the row table or a row by more than a screenful plus one macro expansion (the macro
+\* space is a constant), nor the macro store beyond 64 x the macro space - whatever numbers the token carries
+\* scaled-down macro space for model checking (the .cfg substitutes them for the real 32767)
+SmallExpansion == 48
+SmallMacroSize == 40
 MacroBytes(s) == LET RECURSIVE Sum(_)
                      Sum(i) == IF i > Len(s.macros) THEN 0 ELSE Len(s.macros[i][2]) + Sum(i + 1)
                  IN Sum(1)
 RowMax(s) == LET RECURSIVE M(_)
-                 M(i) == IF i > Len(s.rows) THEN 0 ELSE Max(Len(s.rows[i]), M(i + 1))
+                 M(i) == IF i > Len(s.rows) THEN 0 ELSE Max2(Len(s.rows[i]), M(i + 1))
              IN M(1)
-GrowthBounded == [][ /\ Len(st'.rows) <= Len(st.rows) + st.tw * st.th + st.th + 2
-                     /\ RowMax(st') <= Max(RowMax(st), st.lw) + st.tw * st.th + 2
-                     /\ MacroBytes(st') <= 64 * 32767 ]_vars
+GrowthBounded == [][ /\ Len(st'.rows) <= Len(st.rows) + st.tw * st.th + st.th + 2 + MaxMacroExpansion
+                     /\ RowMax(st') <= Max2(RowMax(st), st.lw) + st.tw * st.th + 2 + MaxMacroExpansion
+                     /\ MacroBytes(st') <= 64 * MaxMacroSize ]_vars
 Bounded == st.bh <= H + 2 /\ Len(st.rows) <= H + 3 /\ (\A i \in 1..Len(st.rows) : Len(st.rows[i]) <= W + 2) /\ Len(st.pal) <= 17
 View == st
 \* ---- generator: coarse classes of states, one shortest witness each
